@@ -220,6 +220,17 @@ func genProfile(t *simrt.Tape, o genOpts) *profile.Profile {
 		}
 		p.Sample = append(p.Sample, s)
 	}
+	if o.odd && t.Bool(K, 6) {
+		// a bare profile: nothing but sample types and (maybe) stackless
+		// samples, as an idle mutex or block profile has
+		p.Mapping, p.Function, p.Location = nil, nil, nil
+		if t.Bool(K, 50) {
+			p.Sample = nil
+		}
+		for _, s := range p.Sample {
+			s.Location = nil
+		}
+	}
 	return p
 }
 
